@@ -222,6 +222,13 @@ fn answer(a: &[&str]) -> String {
                 }
             }
         }
+        // bot <len0> <len1> ... -> the basic offset table of frames with one fragment of that many bytes each
+        "bot" => {
+            use dicom_core::value::fragments::Fragments;
+            let frames: Vec<Fragments> = a[1..].iter().map(|s| Fragments::new(vec![1u8; s.parse::<usize>().unwrap()], 0)).collect();
+            let seq: dicom_core::value::PixelFragmentSequence<Vec<u8>> = frames.into();
+            seq.offset_table().iter().map(|x| x.to_string()).collect::<Vec<_>>().join(" ")
+        }
         // ts_dump -> one line per registered transfer syntax
         "ts_dump" => {
             use dicom_encoding::transfer_syntax::TransferSyntaxIndex;
